@@ -484,6 +484,20 @@ def e2e(ctx, quick, only=None):
     return rows
 
 
+def changed_functions(ctx):
+    """Names of the pinned functions whose statements differ from the pinned ones (ctx.source_diff when the driver
+    filled it in, else evaluated here with string notations in scope)."""
+    names = list(getattr(ctx, "source_diff", []) or [])
+    if names:
+        return names
+    try:
+        out = ctx.coq_eval("c05_source_diff", "From Coq Require Import String List.\nFrom SX Require Import Model.C05SourceShape.\n"
+                           "Open Scope string_scope.\nDefinition D := Eval vm_compute in shape_diff.\nPrint D.\n", timeout=300)
+        return re.findall(r'"([^"]+)"', out)
+    except Exception:
+        return []
+
+
 def run(ctx):
     quick = ctx.tier == "quick"
     ctx.trusted += [
@@ -560,7 +574,7 @@ def run(ctx):
         # Something upstream of the fillers changed (commands, interface / source address selection, request
         # generators): what the pipeline guarantees about the requests it hands to Fill -- a 4-byte source address for
         # the arp filler -- may be exactly what broke, so judge the fillers on the widened request domain as well.
-        upstream = [n for n in getattr(ctx, "source_diff", []) if not re.fullmatch(FILLER_FUNCS, n)]
+        upstream = [n for n in changed_functions(ctx) if not re.fullmatch(FILLER_FUNCS, n)]
         if not ctx.findings and upstream:
             ctx.info.append("widened search (16-byte source addresses for the arp filler) because %s changed" % ", ".join(upstream[:4]))
             for o in rows + more:
